@@ -60,6 +60,11 @@ def _data(case):
     if case.get("ydtype") == "int64":
         # integer-typed targets (counts, prices in cents): the same problem on the rounded values
         y = np.round(y).astype(np.int64)
+    # features in other units, without an intercept (a power of two keeps every product exact, so the fit is the same fit with
+    # coefficients in the other unit; WITH the constant column the design [X * 2**30, 1] is ill conditioned under the IRLS weights and
+    # double precision gives out - BUILDLOG - which is arithmetic, not the statement)
+    if not case["fit_intercept"]:
+        X = X * float(case.get("xscale", 1.0))
     return X, y, w
 
 
@@ -131,6 +136,7 @@ def check_fit(case):
     labels.append("targets:" + case.get("ydtype", "float64"))
     labels.append("via-copy:" + ("-".join(how) if how else "none"))
     labels.append("configured-by-set_params" if case.get("via_set_params") else "configured-by-constructor")
+    labels.append("xscale=%g" % (case.get("xscale", 1.0) if not case["fit_intercept"] else 1.0))
     return Outcome(labels, nt)
 
 
@@ -246,7 +252,8 @@ def _cases(draw, tier="quick", weighted=None, for_score=False):
         case["shifts"] = [draw(st.integers(-40, 40)) / 8.0 for _ in range(4)]
     if weighted:
         case["max_iter"] = draw(st.sampled_from([1, 2, 5, 10, 50]))
-    case["via_set_params"] = draw(st.sampled_from([False, False, True]))     # built with the defaults, then configured with set_params
+    case["via_set_params"] = draw(st.sampled_from([False, False, True]))
+    case["xscale"] = draw(st.sampled_from([1.0, 1.0, 1.0, 2.0 ** 30, 2.0 ** -20]))     # built with the defaults, then configured with set_params
     if not weighted:
         # one case in three goes through a copy: configured then persisted before fit, or fitted, copied and the copy trained again
         kind = draw(st.sampled_from([None, None, "before", "refit"]))
